@@ -526,6 +526,7 @@ package server
 //@ unit (*DsManager).DeleteDataset
 //@   prop C07 C14
 //@   ghost idG int = 0
+//@   ghost unregG int = 0
 //@   requires dsm != nil && dsm.store != nil && !has($held, addrOf(dsm.lock))
 //@   requires [callers-hold-no-lock] forall l int :: has($held, l) ==> lockLevel(l) < 1
 //@   ensures [C07:published-deleted-set-never-mutated] forall k uint32 :: has(old(dsm.store.deletedDatasets), k) <==> old(has(dsm.store.deletedDatasets, k))
@@ -537,8 +538,15 @@ package server
 //@   at call StoreObject#1 before
 //@     assert [C14:deleted-set-written-under-the-key-open-reads] id == "deleteddatasets" && collection == StoreMetaIndex
 //@     assert [C07:persisted-set-contains-this-dataset-and-all-earlier-ones] has(newDeletedDatasets, existingDataset.InternalID) && (forall k uint32 :: has(dsm.store.deletedDatasets, k) ==> has(newDeletedDatasets, k))
+//@   at call Delete#1 before
+//@     ghost unregG := unregG + 1
+//@   at call Delete#2 before
+//@     ghost unregG := unregG + 1
 //@   at call deleteValue#1 before
 //@     assert [C07:deleted-set-persisted-before-the-record-is-removed] has($persisted, "deleteddatasets") && has(dsm.store.deletedDatasets, existingDataset.InternalID)
+//@     assert [C07:dataset-leaves-both-registries-before-its-record-is-removed] unregG == 2
+//@   at call storeEntity#1 before
+//@     assert [C07:core-entity-written-after-the-dataset-left-the-registries] unregG == 2 && $recordsDeleted == old($recordsDeleted) + 1
 //@   loop 1
 //@     invariant newDeletedDatasets != 0 && newDeletedDatasets != dsm.store.deletedDatasets
 //@     invariant forall k uint32 :: visited(k) ==> has(newDeletedDatasets, k)
@@ -641,6 +649,9 @@ package server
 //@   at call storeValue#1 before
 //@     assert [C14:next-dataset-id-written-under-the-key-open-reads] arrOf(key) == arrOf(StoreNextDatasetIDBytes) && len(key) == len(StoreNextDatasetIDBytes) && len(value) == 4
 //@     assert [C07,C04:persisted-next-id-is-above-the-new-datasets-id] encBE32(value, 0) == freshG + 1 && ds.InternalID == freshG && dsm.store.nextDatasetID == freshG + 1
+//@   at call Marshal#1 before
+//@     assert [C19,C14:persisted-record-carries-the-requested-configuration] createDatasetConfig != nil ==> ds.ProxyConfig == createDatasetConfig.ProxyDatasetConfig && ds.VirtualDatasetConfig == createDatasetConfig.VirtualDatasetConfig && arrOf(ds.PublicNamespaces) == arrOf(createDatasetConfig.PublicNamespaces) && len(ds.PublicNamespaces) == len(createDatasetConfig.PublicNamespaces)
+//@     assert [C19,C14:record-serialised-from-the-new-dataset] cast(v, "*server.Dataset") == ds
 //@   at call storeValue#2 before
 //@     assert [C04:next-id-persisted-before-the-dataset-record] idPersistedG && ds.InternalID == freshG
 //@   at call storeEntity#1 before
